@@ -41,6 +41,10 @@ type c15LoadArgs struct {
 	Profiles        []string              `json:"profiles"` // Options.Profiles / the arguments of WithDefaultProfiles
 	SkipConsistency bool                  `json:"skipConsistency"`
 	SkipResolve     bool                  `json:"skipResolve"`
+	// load ∘ select (load_select_never_fails): after a load with the consistency check, the enabled services picked by
+	// SelMask (bit i = the i-th enabled name in sorted order) are selected with policy SelPol
+	SelPol  string `json:"selPol,omitempty"`
+	SelMask int    `json:"selMask,omitempty"`
 }
 
 func c15LoadYaml(a c15LoadArgs) string {
@@ -133,6 +137,20 @@ func c15RealLoad(raw json.RawMessage) (out any) {
 	} else {
 		st := c15Extract(p)
 		res["real"] = map[string]any{"ok": st}
+		if !a.SkipConsistency && a.SelPol != "" {
+			var names []string
+			for i, k := range c15KeySet(p.Services) {
+				if a.SelMask>>uint(i)&1 == 1 {
+					names = append(names, k)
+				}
+			}
+			if len(names) > 0 {
+				res["selected"] = names
+				if _, err := p.WithSelectedServices(names, c15Opt(a.SelPol)); err != nil {
+					res["selectErr"] = err.Error()
+				}
+			}
+		}
 	}
 	return res
 }
@@ -162,6 +180,8 @@ func c15JudgeLoad(args, real, drv json.RawMessage) *core.Verdict {
 			Ok  *c15State `json:"ok"`
 			Err string    `json:"err"`
 		} `json:"real"`
+		Selected  []string `json:"selected"`
+		SelectErr string   `json:"selectErr"`
 	}
 	var d struct {
 		Agree  bool            `json:"agree"`
@@ -187,6 +207,12 @@ func c15JudgeLoad(args, real, drv json.RawMessage) *core.Verdict {
 	}
 	for _, c := range d.Spec {
 		return core.Fail("spec:loader.modelToProject:"+c, fmt.Sprintf("load (%s) with profiles %v (effective %v), skipConsistency=%v skipResolve=%v: the loaded project violates clause %q (Props/C15Load.lean)", a.Path, a.Profiles, d.P, a.SkipConsistency, a.SkipResolve, c))
+	}
+	if len(r.Selected) > 0 && c15LoadCtx != nil {
+		c15LoadCtx.Count("load-then-select-" + a.SelPol)
+	}
+	if r.SelectErr != "" {
+		return core.Fail("spec:loader.modelToProject:load-select-fails", fmt.Sprintf("after a load with the consistency check (profiles %v) WithSelectedServices(%v, %s) fails: %s (load_select_never_fails)", d.P, r.Selected, a.SelPol, r.SelectErr))
 	}
 	if !d.Agree {
 		return core.Disagree(fmt.Sprintf("load (%s) profiles %v (effective %v): real err=%q, model %s", a.Path, a.Profiles, d.P, r.Real.Err, string(d.Model)))
@@ -275,6 +301,7 @@ func c15GenLoad(ctx *core.Ctx) {
 		a.Profiles = ps
 		a.SkipConsistency = r.Intn(2) == 0
 		a.SkipResolve = r.Intn(3) == 0
+		a.SelPol, a.SelMask = []string{"deps", "dependents", "ignore"}[r.Intn(3)], r.Intn(32)
 		ctx.Count(fmt.Sprintf("load-skipC=%v-skipR=%v", a.SkipConsistency, a.SkipResolve))
 		ctx.Add("c15load", a)
 	}
